@@ -10,10 +10,10 @@ Definition with_order (c : config) (pi : list string -> list string) : config :=
   mkConfig (cfg_schema c) (cfg_convert c) (cfg_ignored_fields c) (cfg_ignore_filter c)
            (cfg_return_input_on_noop c) pi.
 
-Lemma add_back_rounds_order : forall fuel c pi mav vs n m p,
-  add_back_rounds fuel (with_order c pi) mav vs n m p = add_back_rounds fuel c mav vs n m p.
+Lemma add_back_rounds_order : forall fuel c pi mav vs n m p prev,
+  add_back_rounds fuel (with_order c pi) mav vs n m p prev = add_back_rounds fuel c mav vs n m p prev.
 Proof.
-  induction fuel as [|fuel IH]; intros c pi mav vs n m p; [reflexivity|].
+  induction fuel as [|fuel IH]; intros c pi mav vs n m p prev; [reflexivity|].
   simpl.
   change (add_back_round (with_order c pi) mav vs n m p) with (add_back_round c mav vs n m p).
   destruct (add_back_round c mav vs n m p) as [[[[m' p'] ch] n']|e]; [|reflexivity].
